@@ -125,6 +125,21 @@ def _entries():
         lambda a, b: _ro_fresh_ldr(a).adapt(b['z']), fronts1=['ro'])
     add('dro adapt to foreign random variable',
         lambda a, b: _dro_fresh_var(a).adapt(b['z']), fronts1=['dro'])
+    add('ldr adapt to foreign random variable after an own one',
+        lambda a, b: (_ro_fresh_ldr(a).adapt(a['z'][0]), _ro_fresh_ldr(a).adapt(b['z'][1])),
+        fronts1=['ro'])
+    add('ldr slice adapt to foreign random variable after an own one',
+        lambda a, b: (_ro_fresh_ldr(a)[0].adapt(a['z'][0]), _ro_fresh_ldr(a)[1].adapt(b['z'][1])),
+        fronts1=['ro'])
+    add('dro adapt to foreign random variable after an own one',
+        lambda a, b: (_dro_fresh_var(a).adapt(a['z'][0]), _dro_fresh_var(a).adapt(b['z'][1])),
+        fronts1=['dro'])
+    add('suppset with foreign random variable after an own one',
+        lambda a, b: (a['amb'].suppset(a['z'] >= -1, a['z'] <= 1),
+                      a['amb'].suppset(b['z'] >= -1, b['z'] <= 1)), fronts1=['dro'])
+    add('forall with foreign set after an own one',
+        lambda a, b: a['m'].st(((a['x'][:2] * a['z']).sum() <= 5).forall(
+            a['z'] >= -1, a['z'] <= 1).forall(b['z'] >= -1, b['z'] <= 1)), fronts1=['ro'])
     add('objective redefinition (min, min)', lambda a, b: a['m'].min(a['x'].sum()))
     add('objective redefinition (min, max)', lambda a, b: a['m'].max(a['x'].sum()))
     add('objective redefinition (minmax/minsup again)',
